@@ -24,6 +24,8 @@ type Mutant struct {
 	Old        string `json:"old"`
 	New        string `json:"new"`
 	Note       string `json:"note"`
+	Old2       string `json:"old2,omitempty"` // optional second hunk in the same file (e.g. an import)
+	New2       string `json:"new2,omitempty"`
 }
 
 type mutantResult struct {
@@ -94,6 +96,13 @@ func runMutantChild(o *RunOpts, id string) int {
 		return emit()
 	}
 	mutated := strings.Replace(string(src), m.Old, m.New, 1)
+	if m.Old2 != "" {
+		if strings.Count(mutated, m.Old2) != 1 {
+			res.Error = "second hunk context not found exactly once: skipped"
+			return emit()
+		}
+		mutated = strings.Replace(mutated, m.Old2, m.New2, 1)
+	}
 	prop := o.Property
 	if prop == "" {
 		prop = m.Property
